@@ -392,6 +392,14 @@ func ruleArithGuard(c *Ctx) []Obligation {
 				obs = append(obs, ok(R, con, pos, why))
 				return
 			}
+			if why := quotRemBound(in); why != "" {
+				if strings.HasPrefix(why, "reasoned: ") {
+					obs = append(obs, just(R, con, pos, strings.TrimPrefix(why, "reasoned: ")))
+				} else {
+					obs = append(obs, ok(R, con, pos, why))
+				}
+				return
+			}
 			if why, okj := jget("arithJustified", arithJustified, con); okj {
 				// A justification is an argument about one expression: it applies only while the
 				// expression it was written for is still the one in the code.
@@ -656,10 +664,41 @@ func ruleRangeParent(c *Ctx) []Obligation {
 			copyAlloc = cp.alloc
 		}
 	}
+	// the places where a restriction is parsed against a parent set: calls of the parser in resolve, and calls of a
+	// function that hands two of its parameters on to the parser as parent set and restriction text
+	type restrictSite struct {
+		ci         ssa.CallInstruction
+		recv, text ssa.Value
+	}
+	var sites []restrictSite
 	for _, ci := range c.callsTo(res, pcr) {
-		recv := ci.Common().Args[0]
+		sites = append(sites, restrictSite{ci, ci.Common().Args[0], ci.Common().Args[1]})
+	}
+	eachInstr(res, func(in ssa.Instruction) {
+		ci, isC := in.(ssa.CallInstruction)
+		if !isC {
+			return
+		}
+		w := ci.Common().StaticCallee()
+		if w == nil || w == pcr || !c.isRepoFn(w) || w.Blocks == nil {
+			return
+		}
+		for _, inner := range c.callsTo(w, pcr) {
+			pr, isP1 := inner.Common().Args[0].(*ssa.Parameter)
+			pt, isP2 := inner.Common().Args[1].(*ssa.Parameter)
+			if !isP1 || !isP2 {
+				continue
+			}
+			i, j := paramIndex(w, pr), paramIndex(w, pt)
+			if a := ci.Common().Args; i >= 0 && j >= 0 && i < len(a) && j < len(a) {
+				sites = append(sites, restrictSite{ci, a[i], a[j]})
+			}
+		}
+	})
+	for _, site := range sites {
+		ci, recv := site.ci, site.recv
 		// which restriction? the string argument comes from t.Range.Name or t.Length.Name
-		isLen := derivesFrom(ci.Common().Args[1], func(x ssa.Value) bool {
+		isLen := derivesFrom(site.text, func(x ssa.Value) bool {
 			_, f, _ := fieldOf(x)
 			return f != nil && f.Name() == "Length" && namedOf(f.Type()) != nil && namedOf(f.Type()).Obj().Name() == "Length"
 		})
@@ -1186,4 +1225,88 @@ func ruleEnumUse(c *Ctx) []Obligation {
 		}
 	}
 	return obs
+}
+
+// quotRemBound decides the arithmetic of taking a number apart at its decimal point, whatever function it is written
+// in: with q = x / s (unsigned), q*s cannot exceed x, so x - q*s cannot go below zero and is less than s; and for
+// s = pow10(f), (x - q*s) * pow10(18 - f) is less than 10^18; 18 - f is taken of a fraction-digits count (0..18 by
+// the type's construction, as recorded for Number.frac).
+func quotRemBound(in ssa.Instruction) string {
+	bo, isB := in.(*ssa.BinOp)
+	if !isB {
+		return ""
+	}
+	quot := func(v ssa.Value) (x, s ssa.Value) {
+		q, isQ := v.(*ssa.BinOp)
+		if !isQ || q.Op != token.QUO || basicName(q.Type()) != "uint64" {
+			return nil, nil
+		}
+		return q.X, q.Y
+	}
+	qTimesS := func(v ssa.Value) (x, s ssa.Value) {
+		m, isM := v.(*ssa.BinOp)
+		if !isM || m.Op != token.MUL {
+			return nil, nil
+		}
+		if x, s := quot(m.X); x != nil && sameExpr(s, m.Y) {
+			return x, s
+		}
+		if x, s := quot(m.Y); x != nil && sameExpr(s, m.X) {
+			return x, s
+		}
+		return nil, nil
+	}
+	rem := func(v ssa.Value) (x, s ssa.Value) {
+		r, isR := v.(*ssa.BinOp)
+		if !isR || r.Op != token.SUB {
+			return nil, nil
+		}
+		if x, s := qTimesS(r.Y); x != nil && sameExpr(x, r.X) {
+			return x, s
+		}
+		return nil, nil
+	}
+	pow10Of := func(v ssa.Value) ssa.Value {
+		call, isC := v.(*ssa.Call)
+		if !isC || call.Call.StaticCallee() == nil || call.Call.StaticCallee().Name() != "pow10" || len(call.Call.Args) != 1 {
+			return nil
+		}
+		return call.Call.Args[0]
+	}
+	switch bo.Op {
+	case token.MUL:
+		if x, _ := qTimesS(bo); x != nil {
+			return "quotient times the divisor it was divided by: not above the dividend"
+		}
+		// remainder by 10^f, times 10^(18-f)
+		for _, pair := range [][2]ssa.Value{{bo.X, bo.Y}, {bo.Y, bo.X}} {
+			_, s := rem(pair[0])
+			if s == nil {
+				continue
+			}
+			f := pow10Of(s)
+			g := pow10Of(pair[1])
+			if f == nil || g == nil {
+				continue
+			}
+			if cv, isCv := g.(*ssa.Convert); isCv {
+				g = cv.X
+			}
+			if d, isD := g.(*ssa.BinOp); isD && d.Op == token.SUB {
+				if k, isK := constInt(d.X); isK && k == 18 && sameExpr(d.Y, f) {
+					return "a remainder below 10^f times 10^(18-f): below 10^18"
+				}
+			}
+		}
+	case token.SUB:
+		if x, _ := rem(bo); x != nil {
+			return "dividend minus quotient times divisor: the remainder, never below zero"
+		}
+		if k, isK := constInt(bo.X); isK && k == 18 && basicName(bo.Type()) == "uint8" {
+			if _, f, _ := loadedField(bo.Y); f != nil && f.Name() == "FractionDigits" {
+				return "reasoned: 18 - f for a fraction-digits count f in 0..18 (the field's domain: RFC 7950 9.3.4, kept by ParseDecimal and Type.resolve through asRangeInt(1,18))"
+			}
+		}
+	}
+	return ""
 }
